@@ -122,6 +122,20 @@ def parse_out(stderr, n):
     return [got[i] for i in range(n)], None
 
 
+SWITCH_CASES = {b"a\x00b": 1, b"a\x00c": 2, b"a": 3, b"a\x00": 4, b"\x80": 5, b"\xff": 6, b"": 7, b"\x00": 8, b"ab": 9}
+
+
+def keyed_only_lines():
+    """switch and map on strings with embedded NUL / high bytes (e2e only; Python expectation + Go-built binary)"""
+    out = []
+    keys = sorted(set(list(SWITCH_CASES) + [b"a\x00d", b"b", b"\x00\x00", b"\x7f", b"a\x00b\x00", b"abc"]))
+    for kx in keys:
+        out.append(("swi %s" % hexs(kx), "ok %d" % SWITCH_CASES.get(kx, 0)))
+    for a, b in C.ORDER_PAIRS:
+        out.append(("mapk %s %s" % (hexs(a), hexs(b)), "ok len=%d a=%d b=2" % ((1, 2) if a == b else (2, 1))))
+    return out
+
+
 def gen_e2e_only(rng):
     a, b = C.rbytes(rng, 4), C.rbytes(rng, 4)
     if rng.random() < 0.5:
@@ -176,9 +190,9 @@ def run_e2e(ctx, rng, quick):
         scripts.append(("e2e-%d" % i, s))
         total += len(s)
         i += 1
-    string_lines = [C.gen_string_line(rng) for _ in range(1500 if quick else 20000)]
+    string_lines = C.order_pair_lines() + [C.gen_string_line(rng) for _ in range(1500 if quick else 20000)]
     string_lines = [l for l in string_lines if not l.startswith("dec ")]     # decoderune is not callable from Go
-    only = [gen_e2e_only(rng) for _ in range(200 if quick else 2000)]
+    only = keyed_only_lines() + [gen_e2e_only(rng) for _ in range(200 if quick else 2000)]
     flat = [l for _, ls in scripts for l in ls] + ["reset"] + string_lines
     typed = gen_typed_lines(rng, quick)
     all_lines = flat + [l for l, _ in only] + typed
